@@ -183,6 +183,12 @@ def Step (σ : State) (op : Op) (evs : List Ev) (σ' : State) : Prop :=
   | .getOwner c n => σ' = σ ∧ evs = [ownerAnswer (σ.queue n) c]
   | .listQueued c n => σ' = σ ∧ evs = [queueAnswer (σ.queue n) c]
 
+/-- A whole history: the steps one after the other, the events of each step kept apart. -/
+inductive Run : State → List Op → List (List Ev) → State → Prop where
+  | nil (σ : State) : Run σ [] [] σ
+  | cons {σ σ1 σ2 : State} {op : Op} {ops : List Op} {evs : List Ev} {evss : List (List Ev)} :
+      Step σ op evs σ1 → Run σ1 ops evss σ2 → Run σ (op :: ops) (evs :: evss) σ2
+
 /-! ## An executable instance
 
 `exec names fresh σ op`: the step that drops a replaced owner (`keepOld = false`), names a new
